@@ -98,6 +98,17 @@ func init() {
 		"math.Cosh": func(ex *Exec, _ *ssa.Function, a []Value, _ ssa.Instruction) Value { return ex.mHyp("cosh", a[0].(F)) },
 		"math.Tanh": func(ex *Exec, _ *ssa.Function, a []Value, _ ssa.Instruction) Value { return ex.mHyp("tanh", a[0].(F)) },
 		"math.Sqrt": func(ex *Exec, _ *ssa.Function, a []Value, _ ssa.Instruction) Value { return ex.mSqrt(a[0].(F)) },
+		"math.Signbit": func(ex *Exec, _ *ssa.Function, a []Value, _ ssa.Instruction) Value {
+			// bit-precise mode: the IEEE sign bit (distinguishes -0 from +0); real-number model: x < 0 (no signed zero)
+			x := a[0].(F)
+			if x.T.sort == SFloat {
+				if x.T.op == "fconst" {
+					return math.Signbit(x.T.f64())
+				}
+				return ex.normInt(ex.b.app("fisneg", SBool, x.T))
+			}
+			return ex.normInt(ex.b.RLt(x.T, ex.b.Rat(ratZero)))
+		},
 		"math.Pow": func(ex *Exec, _ *ssa.Function, a []Value, _ ssa.Instruction) Value {
 			return ex.mPow(a[0].(F), a[1].(F))
 		},
@@ -473,6 +484,13 @@ func (ex *Exec) mSqrt(x F) F {
 		return r
 	}
 	tb := ex.b
+	if x.T.sort == SFloat {
+		// bit-precise mode: IEEE-754 correctly rounded square root (what math.Sqrt is on every Go port)
+		if x.T.op == "fconst" {
+			return F{T: tb.FConst(math.Sqrt(x.T.f64())), D: x.D}
+		}
+		return F{T: tb.app("fsqrt", SFloat, x.T), D: x.D}
+	}
 	zero := tb.Rat(ratZero)
 	if x.T.op == "rconst" && x.T.rat.Sign() >= 0 {
 		// exact square roots of perfect-square rationals
